@@ -45,29 +45,32 @@ PRIORS = [[], ["a"], ["a b"], ["*v"], ["*#v"]]
 def instances(tier, seed):
     rng = random.Random(seed)
     out = []
-    for sk, (n, _) in SKEL.items():
-        for spec in ARR_SPECS:
-            kinds_list = [["arr"] * n]
-            if n:
-                k = ["arr"] * n
-                k[rng.randrange(n)] = rng.choice(["int", "pair"])
-                kinds_list.append(k)
-                if spec[0] == "tup":
-                    kinds_list.append(["arrpair"] * n)
-                    k2 = ["arrpair"] * n
-                    k2[rng.randrange(n)] = "arr"
-                    kinds_list.append(k2)
-            for kinds in kinds_list:
-                for p in ([[]] if rng.random() < 0.5 else []) + [rng.choice(PRIORS)]:
-                    out.append(("pool", dict(skel=sk, spec=spec, kinds=kinds, prior=p, maxrank=2)))
-        for spec in PY_SPECS:
-            for _ in range(2):
-                kinds = [rng.choice(list(PYVALS)) for _ in range(n)]
-                out.append(("pool", dict(skel=sk, spec=spec, kinds=kinds, prior=[], maxrank=1)))
-            if n:
-                kinds = [rng.choice(list(PYVALS)) for _ in range(n)]
-                kinds[0] = "arr"
-                out.append(("pool", dict(skel=sk, spec=spec, kinds=kinds, prior=["a"], maxrank=1)))
+    rounds = 1 if tier == "quick" else 5
+    mr = 2 if tier == "quick" else 3
+    for _round in range(rounds):
+      for sk, (n, _) in SKEL.items():
+          for spec in ARR_SPECS:
+              kinds_list = [["arr"] * n]
+              if n:
+                  k = ["arr"] * n
+                  k[rng.randrange(n)] = rng.choice(["int", "pair"])
+                  kinds_list.append(k)
+                  if spec[0] == "tup":
+                      kinds_list.append(["arrpair"] * n)
+                      k2 = ["arrpair"] * n
+                      k2[rng.randrange(n)] = "arr"
+                      kinds_list.append(k2)
+              for kinds in kinds_list:
+                  for p in ([[]] if rng.random() < 0.5 else []) + [rng.choice(PRIORS)]:
+                      out.append(("pool", dict(skel=sk, spec=spec, kinds=kinds, prior=p, maxrank=mr)))
+          for spec in PY_SPECS:
+              for _ in range(2):
+                  kinds = [rng.choice(list(PYVALS)) for _ in range(n)]
+                  out.append(("pool", dict(skel=sk, spec=spec, kinds=kinds, prior=[], maxrank=1)))
+              if n:
+                  kinds = [rng.choice(list(PYVALS)) for _ in range(n)]
+                  kinds[0] = "arr"
+                  out.append(("pool", dict(skel=sk, spec=spec, kinds=kinds, prior=["a"], maxrank=1)))
     rng.shuffle(out)
     ncore = 260 if tier == "quick" else len(out)
     return [("core" if i < ncore else "ext", x) for i, (_, x) in enumerate(out)]
